@@ -12,6 +12,7 @@ def want(case, sig):
 
 
 def run(v, tier, seed):
-    return run_view_check(v, tier, seed, want, [viewpipe.visit_results, viewpipe.view_results, viewpipe.cursor_results, viewpipe.gen_visit_results, viewpipe.gen_view_results],
+    return run_view_check(v, tier, seed, want, [viewpipe.visit_results, viewpipe.view_results, viewpipe.cursor_results, viewpipe.gen_visit_results, viewpipe.gen_view_results,
+                                                viewpipe.repo_visit_results, viewpipe.repo_view_results],
                           "one vector per (schema, message, shape, stop point k): expected callback log prefix with value/view, tag key and cursor position at each callback",
                           "Visit.tla: VisitOrderComplete (operational walk = denotational member order) and VisitLandsAtEnd model-checked; every stop point replayed with a recursive visitor on the generated classes (read-only, exact-size buffer)")
